@@ -79,6 +79,18 @@ def register(M):
     def _(ex, info, a, dty):
         cell, path = ex.deref(a[0])
         items = seq_of(ex, ex.read_path(cell, path))
+        # a predicate that gets its items by `&mut` (iter_mut) may change them: then it matters that `any` / `all` STOP at
+        # the first decisive item - evaluated in order, branching on each verdict
+        f0 = ex.materialize(a[1])
+        fb = ex.prog.closure_body(f0.ty) if isinstance(f0, Adt) and f0.ty.startswith('{closure@') else None
+        if fb is not None and len(fb.params) >= 2 and fb.params[1][1].strip().lstrip('(').startswith('&mut'):
+            want = info['method'] == 'any'
+            for i, it in enumerate(items):
+                if ex.branch(ex.call_value(a[1], [it])) == want:
+                    ex.write_path(cell, path, mkiter(items[i + 1:]))
+                    return z3.BoolVal(want)
+            ex.write_path(cell, path, mkiter([]))
+            return z3.BoolVal(not want)
         rs = [ex.call_value(a[1], [it]) for it in items]
         ex.write_path(cell, path, mkiter([]))
         if info['method'] == 'any':
@@ -400,6 +412,14 @@ def register(M):
     def _(ex, info, a, dty):
         cell, path, v = vec_at(ex, a[0])
         ex.write_path(cell, path, v.set(items=v.items + tuple(seq_of(ex, a[1]))))
+        return UNIT
+
+    @reg('Vec::append')
+    def _(ex, info, a, dty):
+        cell, path, v = vec_at(ex, a[0])
+        c2, p2, v2 = vec_at(ex, a[1])
+        ex.write_path(cell, path, v.set(items=v.items + v2.items))
+        ex.write_path(c2, p2, ex.read_path(c2, p2).set(items=()))
         return UNIT
 
     @reg('Vec::truncate')
